@@ -57,6 +57,7 @@ static std::pair<std::string, std::string> run_case(const Case &c, bool *outstan
     auto inner = [&]() -> std::pair<std::string, std::string> {
     for (auto &v : r.violations) if (v.rfind("C09:handover_livelock", 0) == 0) return {"handover_livelock", v};
     if (A.mode == "c09") for (auto &v : r.violations) if (v.rfind("C09:", 0) == 0) return {"monitor:" + v.substr(4), "API-contract monitor: " + v};
+    if (A.mode == "c05") { for (auto &v : r.violations) if (v.rfind("C05:", 0) == 0) return {v.substr(4), "lifecycle monitor: " + v}; return {"", ""}; } // --mode c05: only the lifecycle automaton counts
     if (obs.completes.size() != N) { std::string s; for (auto &kv : obs.completes) s += kv.first + "<->" + kv.second + " "; return {"transaction_complete_count", std::to_string(obs.completes.size()) + " TRANSACTION_COMPLETE events for " + std::to_string(N) + " pairs: " + s}; }
     for (size_t i = 0; i < N; i++) {
         std::string qt = "q" + std::to_string(i) + "z", st = "s" + std::to_string(i) + "z";
@@ -77,7 +78,7 @@ static std::pair<std::string, std::string> run_case(const Case &c, bool *outstan
     if (!may_set && got) return {"pipelined_flag_spurious", "HTP_CONN_PIPELINED is set although every request was started only after the response to the previous request had begun"};
     return {"", ""};
     };
-    auto res = inner(); if (!res.first.empty()) res.first += site; return res;
+    auto res = inner(); if (!res.first.empty() && A.mode != "c05") res.first += site; return res; // (monitor signatures carry their own trace-point suffix)
 }
 
 static void campaign() {
@@ -129,7 +130,7 @@ static void campaign() {
         std::string text = case_text(c); vc::set_current_case(text);
         bool out2 = false; auto r = run_case(c, &out2);
         if (!rcx::shrinking()) { g_stats.evaluations++; g_stats.cls("histories"); g_stats.cls(std::string("interleaving_style_") + (style == 0 ? "response_first_when_legal" : style == 1 ? "requests_first" : style == 2 ? "random" : "earliest_response")); if (c.auto_destroy) g_stats.cls("auto_destroy"); for (size_t j = 0; j < N; j++) if (withheld[j]) { g_stats.cls("expect_100_continue_body_withheld_after_4xx"); break; } if (N >= 3 && out2) { g_stats.nt(vc::fnv1a(text)); g_stats.cls("n_ge_3_with_outstanding_requests"); } if (!out2) g_stats.cls("strict_ping_pong_histories"); g_stats.sample_sparse(text, g_stats.evaluations); }
-        if (!r.first.empty()) { std::string sig = (A.mode == "c09" ? std::string("C09:resume_point_or_progress:") : std::string("C04:")) + r.first; if (A.is_known(sig)) { if (!rcx::shrinking()) g_stats.attributed[sig]++; return {}; } return rcx::Fail{sig, text, r.second}; }
+        if (!r.first.empty()) { std::string sig = (A.mode == "c09" ? std::string("C09:resume_point_or_progress:") : A.mode == "c05" ? std::string("C05:") : std::string("C04:")) + r.first; if (A.is_known(sig)) { if (!rcx::shrinking()) g_stats.attributed[sig]++; return {}; } return rcx::Fail{sig, text, r.second}; }
         return {};
     });
 }
@@ -146,7 +147,7 @@ static int replay(const std::string &path) {
     }
     bool o2; auto r = run_case(c, &o2);
     if (r.first.empty()) { printf("REPLAY-OK\n"); return 0; }
-    printf("REPLAY-FAIL sig=%s%s\n%s\n", A.mode == "c09" ? "C09:resume_point_or_progress:" : "C04:", r.first.c_str(), r.second.c_str()); return 1;
+    printf("REPLAY-FAIL sig=%s%s\n%s\n", A.mode == "c09" ? "C09:resume_point_or_progress:" : A.mode == "c05" ? "C05:" : "C04:", r.first.c_str(), r.second.c_str()); return 1;
 }
 
 int main(int argc, char **argv) {
